@@ -21,6 +21,13 @@
 (*   BitsN(i)               N   (explicit cast, may change the width)      *)
 (*   loop variable          BitLen(max of the range), inferred             *)
 (*   temporary variable     width / explicitness of the assigned value     *)
+(*   bitstruct              sum of the widths of its fields       NBits    *)
+(*   list field [..[T]*n1..]*nk   (packed array)  n1 * .. * nk * width(T)  *)
+(*   s.f  (field)           width of the declared type of field f          *)
+(*   a[i] (a a list field)  one dimension less: width(a) / n1              *)
+(*   struct @= vector, vector @= struct    widths must agree (a struct is  *)
+(*                          explicitly sized);  T(x, .., y): width of T,   *)
+(*                          every argument sized like the field it fills   *)
 (*                                                                         *)
 (* Part 1 (pure): one rule operator per node kind.  Each takes the `Info`  *)
 (* records of the children and returns the Info of the node:               *)
@@ -28,6 +35,8 @@
 (*   ex    explicitly sized?   kv/val  statically known small int value    *)
 (*   cst   compile-time constant (kv = FALSE: too large for TLC integers)  *)
 (*   st    bitstruct typed?                                                *)
+(*   ty    the shape (BitStruct.tla: Leaf(w) | Struct(fs) | List(n, t));   *)
+(*         a multi-dimensional list field is a List of Lists               *)
 (*   mis   ExplicitMismatch: two explicitly sized operands of an           *)
 (*         arithmetic/bitwise/comparison/conditional/assignment node       *)
 (*         differ in width                                                 *)
@@ -46,6 +55,10 @@
 (* that a well-typed, unexcused block cannot raise a width error.          *)
 (***************************************************************************)
 EXTENDS Naturals, Integers, Sequences, FiniteSets, TLC
+
+\* shapes of bitstruct types and their packed width (shared with C06)
+BS == INSTANCE BitStruct WITH Shape <- [k |-> "leaf", w |-> 1], Names <- {}, objs <- <<>>
+LeafT(w) == [k |-> "leaf", w |-> w]
 
 Max(a, b) == IF a >= b THEN a ELSE b
 Min(a, b) == IF a <= b THEN a ELSE b
@@ -67,8 +80,12 @@ Clog2(n) == IF n <= 1 THEN 1 ELSE BitLenNat(n - 1)     \* index width of an n-bi
 \* Info records
 
 Info(w, ex, kv, val, st) ==
-    [w |-> w, ex |-> ex, kv |-> kv, val |-> val, st |-> st, cst |-> kv,
+    [w |-> w, ex |-> ex, kv |-> kv, val |-> val, st |-> st, cst |-> kv, ty |-> LeafT(w),
      mis |-> FALSE, trunc |-> FALSE, bad |-> FALSE, cchg |-> FALSE, sune |-> FALSE]
+\* a value of shape T: its width is the packed width of the shape
+TyInfo(T, ex) == [Info(BS!NBits(T), ex, FALSE, 0, T.k = "struct") EXCEPT !.ty = T]
+IsList(i)     == i.ty.k = "list"            \* a (partially indexed) list field: a packed array
+NonVec(i)     == i.st \/ IsList(i)
 NoInfo == Info(0, TRUE, FALSE, 0, FALSE)              \* statements
 Unsup  == [Info(0, FALSE, FALSE, 0, FALSE) EXCEPT !.cst = TRUE]   \* expression outside the model
 
@@ -112,12 +129,12 @@ NumInfoL(l)     == IF LimbsSmall(l) THEN Info(BitLenLimbs(l), FALSE, TRUE, Limbs
 BConstInfoL(w, l) == [Info(w, TRUE, LimbsSmall(l), IF LimbsSmall(l) THEN LimbsVal(l) ELSE 0, FALSE)
                         EXCEPT !.bad = BitLenLimbs(l) > w, !.cst = TRUE]
 
-CastInfo(n, a) == [Info(n, TRUE, a.kv, a.val, FALSE) EXCEPT !.cchg = (a.w # n), !.bad = a.st, !.cst = a.cst]
+CastInfo(n, a) == [Info(n, TRUE, a.kv, a.val, FALSE) EXCEPT !.cchg = (a.w # n), !.bad = NonVec(a), !.cst = a.cst]
 
 \* invert of a constant leaves the non-negative ints: value not modelled; a negated constant is
 \* only used as the step of a range
 UnInfo(op, a) == [Info(a.w, a.ex, op \in {"+", "-"} /\ a.kv, IF op = "-" THEN 0 - a.val ELSE a.val, FALSE)
-                    EXCEPT !.bad = a.st, !.cst = a.cst]
+                    EXCEPT !.bad = NonVec(a), !.cst = a.cst]
 
 \* the inferred operand `i` meets the explicitly sized operand `e`
 TruncBy(e, i) == i.w > e.w
@@ -134,7 +151,7 @@ BinInfo(op, a, b) ==
            EXCEPT !.cst   = a.cst /\ b.cst,
                   !.mis   = both /\ a.w # b.w,
                   !.trunc = (a.ex /\ ~b.ex /\ TruncBy(a, b)) \/ (b.ex /\ ~a.ex /\ TruncBy(b, a)),
-                  !.bad   = a.st \/ b.st]
+                  !.bad   = NonVec(a) \/ NonVec(b)]
 
 ShiftInfo(op, a, b) ==
     LET fold == FoldOK(op, a, b)
@@ -148,7 +165,7 @@ ShiftInfo(op, a, b) ==
            EXCEPT !.cst  = a.cst /\ b.cst,
                   !.sune = (a.ex /\ b.ex /\ a.w # b.w) \/ (a.ex /\ ~b.ex /\ b.w > a.w)
                            \/ (~a.ex /\ b.ex),
-                  !.bad  = a.st \/ b.st]
+                  !.bad  = NonVec(a) \/ NonVec(b)]
 
 CmpInfo(a, b) ==
     [Info(1, TRUE, FALSE, 0, FALSE)
@@ -156,36 +173,60 @@ CmpInfo(a, b) ==
               !.trunc = (a.ex /\ ~b.ex /\ TruncBy(a, b)) \/ (b.ex /\ ~a.ex /\ TruncBy(b, a))]
 
 IfExpInfo(c, a, b) ==
+    \* two branches of the same struct / list type give that type
     [Info(Max(a.w, b.w), a.ex \/ b.ex, FALSE, 0, a.st)
-       EXCEPT !.mis   = a.ex /\ b.ex /\ a.w # b.w /\ ~a.st /\ ~b.st,
+       EXCEPT !.ty    = IF NonVec(a) THEN a.ty ELSE LeafT(Max(a.w, b.w)),
+              !.mis   = a.ex /\ b.ex /\ a.w # b.w /\ ~NonVec(a) /\ ~NonVec(b),
               !.trunc = (a.ex /\ ~b.ex /\ TruncBy(a, b)) \/ (b.ex /\ ~a.ex /\ TruncBy(b, a)),
-              !.bad   = c.st \/ (a.st # b.st)]
+              !.bad   = NonVec(c) \/ (a.ty.k # b.ty.k) \/ (NonVec(a) /\ a.ty # b.ty)]
 
 SumW(ws) == LET RECURSIVE S(_)
                 S(i) == IF i = 0 THEN 0 ELSE ws[i] + S(i - 1)
             IN  S(Len(ws))
 ConcatInfo(as) ==       \* as: sequence of Infos (at most a few dozen operands)
     [Info(SumW([i \in 1 .. Len(as) |-> as[i].w]), TRUE, FALSE, 0, FALSE)
-       EXCEPT !.bad = \E i \in 1 .. Len(as) : ~as[i].ex \/ as[i].st]
+       EXCEPT !.bad = \E i \in 1 .. Len(as) : ~as[i].ex \/ NonVec(as[i])]
 
-ZextInfo(n, a)  == [Info(n, TRUE, FALSE, 0, FALSE) EXCEPT !.bad = n < a.w \/ ~a.ex \/ a.st]
+ZextInfo(n, a)  == [Info(n, TRUE, FALSE, 0, FALSE) EXCEPT !.bad = n < a.w \/ ~a.ex \/ NonVec(a)]
 SextInfo(n, a)  == ZextInfo(n, a)
-TruncInfo(n, a) == [Info(n, TRUE, FALSE, 0, FALSE) EXCEPT !.bad = n > a.w \/ ~a.ex \/ a.st]
-ReduceInfo(a)   == [Info(1, TRUE, FALSE, 0, FALSE) EXCEPT !.bad = ~a.ex \/ a.st]
+TruncInfo(n, a) == [Info(n, TRUE, FALSE, 0, FALSE) EXCEPT !.bad = n > a.w \/ ~a.ex \/ NonVec(a)]
+ReduceInfo(a)   == [Info(1, TRUE, FALSE, 0, FALSE) EXCEPT !.bad = ~a.ex \/ NonVec(a)]
 
 \* i[j] on a vector: one bit.  A constant index must be in range.
 BitInfo(a, i) == [Info(1, TRUE, FALSE, 0, FALSE)
-                    EXCEPT !.bad = a.st \/ ~a.ex \/ (i.kv /\ ~(0 <= i.val /\ i.val < a.w))]
-\* element of an array of n signals of width w
-ElemInfo(n, w, st, i) == [Info(w, TRUE, FALSE, 0, st)
-                            EXCEPT !.bad = i.kv /\ ~(0 <= i.val /\ i.val < n)]
+                    EXCEPT !.bad = NonVec(a) \/ ~a.ex \/ (i.kv /\ ~(0 <= i.val /\ i.val < a.w))]
+\* element of an array of n signals of shape T
+ElemInfo(n, T, i) == [TyInfo(T, TRUE) EXCEPT !.bad = i.kv /\ ~(0 <= i.val /\ i.val < n)]
 \* i[lo:hi] with constant bounds
 SliceInfo(a, lo, hi) ==
     IF lo.kv /\ hi.kv
     THEN [Info(Max(hi.val - lo.val, 0), TRUE, FALSE, 0, FALSE)
-            EXCEPT !.bad = a.st \/ ~a.ex \/ ~(0 <= lo.val /\ lo.val < hi.val /\ hi.val <= a.w)]
+            EXCEPT !.bad = NonVec(a) \/ ~a.ex \/ ~(0 <= lo.val /\ lo.val < hi.val /\ hi.val <= a.w)]
     ELSE NoInfo
-FieldInfo(a, w, st) == [Info(w, TRUE, FALSE, 0, st) EXCEPT !.bad = ~a.st]
+
+\* ---- bitstructs and their list fields (packed arrays) --------------------------------
+\* a signal / constant of shape T (a BitsN signal is SigInfoT(LeafT(N)))
+SigInfoT(T) == TyInfo(T, TRUE)
+HasField(T, f) == T.k = "struct" /\ \E j \in 1 .. Len(T.fs) : T.fs[j].n = f
+FieldT(T, f)   == T.fs[CHOOSE j \in 1 .. Len(T.fs) : T.fs[j].n = f].t
+\* a.f: the declared type of field f; explicitly sized whatever the field is
+FieldInfo(a, f) == IF a.w > 0 /\ HasField(a.ty, f) THEN TyInfo(FieldT(a.ty, f), TRUE) ELSE Unsup
+\* a[i] on a list field: one dimension less -- the element type, or a list again
+IndexWidth(n) == Clog2(n)
+ItemInfo(a, i) ==
+    IF a.w > 0 /\ IsList(a)
+    THEN [TyInfo(a.ty.t, TRUE)
+            EXCEPT !.bad = (i.kv /\ ~(0 <= i.val /\ i.val < a.ty.n))
+                           \/ (i.ex /\ i.w # IndexWidth(a.ty.n)) \/ (~i.ex /\ i.w > IndexWidth(a.ty.n))]
+    ELSE Unsup
+\* T( x, .., y ): a struct instance; every argument fills one field (declaration order)
+StructInstInfo(T, as) ==
+    IF T.k # "struct" \/ Len(as) # Len(T.fs) THEN Unsup
+    ELSE LET fw(j) == BS!NBits(T.fs[j].t)
+         IN  [TyInfo(T, TRUE)
+                EXCEPT !.mis   = \E j \in 1 .. Len(as) : as[j].ex /\ as[j].w # fw(j),
+                       !.trunc = \E j \in 1 .. Len(as) : ~as[j].ex /\ as[j].w > fw(j),
+                       !.bad   = \E j \in 1 .. Len(as) : T.fs[j].t.k # "leaf" \/ NonVec(as[j])]
 
 \* for v in range(s, e, st): the loop variable
 RangeMax(s, e, st) == IF st > 0 THEN s + ((e - 1 - s) \div st) * st ELSE s
@@ -200,12 +241,16 @@ ForInfo(s, e, st) ==
               IN  Info(BitLenNat(m), FALSE, FALSE, 0, FALSE)
     ELSE NoInfo                                   \* bounds not statically small: not modelled
 LoopVarInfo(f) == f
-TmpInfo(v)     == Info(v.w, v.ex, FALSE, 0, v.st)
+TmpInfo(v)     == [Info(v.w, v.ex, FALSE, 0, v.st) EXCEPT !.ty = v.ty]
 
 \* target @= value  (t: the target's Info;  a fresh temporary has t.w = 0)
+\* a bitstruct is explicitly sized: struct @= struct, struct @= vector and vector @= struct all need
+\* equal widths (two structs: the same type); a list field is assigned element by element only
 AssignInfo(t, v) ==
-    [NoInfo EXCEPT !.mis   = t.w > 0 /\ v.w > 0 /\ v.ex /\ t.w # v.w /\ ~t.st /\ ~v.st,
-                   !.trunc = t.w > 0 /\ ~v.ex /\ v.w > t.w]
+    [NoInfo EXCEPT !.mis   = t.w > 0 /\ v.w > 0 /\ v.ex /\ t.w # v.w /\ ~IsList(t) /\ ~IsList(v),
+                   !.trunc = t.w > 0 /\ ~v.ex /\ v.w > t.w,
+                   !.bad   = t.w > 0 /\ v.w > 0 /\ (IsList(t) \/ IsList(v) \/ (t.st /\ v.st /\ t.ty # v.ty)
+                                                   \/ (t.st /\ ~v.ex))]
 
 ExplicitMismatch(i) == i.mis
 LocallyOK(i)        == ~i.mis /\ ~i.trunc /\ ~i.bad
